@@ -1394,10 +1394,12 @@ carquet_status_t carquet_read_next_page(
 
     /* Calculate how many values to return from the current page */
     int32_t available = reader->page_num_values - reader->page_values_read;
-    int32_t to_copy = (int32_t)max_values;
-    if (to_copy > available) {
-        to_copy = available;
+    /* clamp in 64 bits: max_values is the caller's 64-bit count ("read everything") */
+    int64_t want = max_values;
+    if (want > available) {
+        want = available;
     }
+    int32_t to_copy = (int32_t)want;
 
     /* Copy values from decoded buffers.
      *
